@@ -302,9 +302,16 @@ class NumpyTheory:
         return True
 
     # ---- functions ---------------------------------------------------------------------------------------------
+    # keyword arguments each modelled function understands; any other keyword makes the call unmodelled (never silently ignored)
+    ALLOWED_KW = {'np.zeros': {'dtype'}, 'np.ones': {'dtype'}, 'np.zeros_like': {'dtype'}, 'np.ones_like': {'dtype'}, 'np.empty_like': {'dtype'},
+                  'np.asarray': {'dtype'}, 'np.array': {'dtype'}, '_as_array': {'dtype'}, 'np.arange': {'dtype'}, 'np.bincount': {'minlength', 'weights'},
+                  'np.isin': {'assume_unique'}, 'np.argsort': {'kind'}}
+
     def np_call(self, name, args, kw, st, node):
         fn = getattr(self, 'np_' + name.replace('.', '_'), None)
         if fn is None:
+            return None
+        if any(k not in self.ALLOWED_KW.get(name, ()) for k in kw):
             return None
         self.used(name)
         return fn(args, kw, st, node)
@@ -468,7 +475,7 @@ class NumpyTheory:
 
     def np_np_isin(self, args, kw, st, node):
         if type(args[0]).__name__ == 'VMat':
-            return self.mat_isin(args[0], args[1], st, node)
+            return self.mat_isin(args[0], args[1], st, node, kw)
         a, b = self.as_array(args[0], st), self.as_array(args[1], st)
         ca, cb = self.acell(a, st), self.acell(b, st)
         if ca.etype != 'int' or cb.etype not in ('int', None):
